@@ -73,14 +73,15 @@ func runC04(c *pure.Ctx) {
 								r := NewRef(p, h.T0, h.T0)
 								// Lower bound of the persisted JobConfig.
 								if ls != nil {
-									cur := h.T0.Add(time.Duration(*ls) * time.Second)
+									cur := h.T0.Add(time.Duration(*ls) * time.Second).Truncate(time.Second) // as stored by the API
+
 									if floor := h.T0.Add(-time.Duration(d) * time.Second); cur.Before(floor) {
 										cur = floor
 									}
 									r.JCs["a"].cursor = cur
 								}
 								if lu != nil {
-									if t := h.T0.Add(time.Duration(*lu) * time.Second); t.After(r.JCs["a"].cursor) {
+									if t := h.T0.Add(time.Duration(*lu) * time.Second).Truncate(time.Second); t.After(r.JCs["a"].cursor) {
 										r.JCs["a"].cursor = t
 									}
 								}
@@ -93,7 +94,7 @@ func runC04(c *pure.Ctx) {
 									for _, e := range got {
 										if e.JC == "a" {
 											nontrivial = true
-											if ls != nil && !e.T.After(h.T0.Add(time.Duration(*ls)*time.Second)) {
+											if ls != nil && !e.T.After(h.T0.Add(time.Duration(*ls)*time.Second).Truncate(time.Second)) {
 												c.Violate("rescheduled-at-or-before-last", fmt.Sprintf("%s: requested %s which is not after lastScheduled", desc, rel(e.T)))
 											}
 										}
